@@ -13,7 +13,8 @@ PREV = {
   "the encoder skipping nil pointer/interface members of a present flag group",
   "Marshal returning bytes of a pooled buffer",
   "the flags placeholder of the encoder inserted at slot 0 instead of FlagIndex()",
-  "the decoder removing a vector hint from its queue only after the hinted vector was read (nested hinted vectors)"
+  "the decoder removing a vector hint from its queue only after the hinted vector was read (nested hinted vectors)",
+  "the decoder not giving a nesting level back on the scalar fast path of decodeValue (depth grows with the number of values)"
  ],
  "C02": [
   "one header byte of the long-string length in the TL encoder",
@@ -21,7 +22,8 @@ PREV = {
   "a pre-allocation length check in PopMessage that counts padding for already aligned strings",
   "Marshal returning bytes of a pooled buffer",
   "two same-width fields of ServerDHInnerData reordered",
-  "the encoder treating every bool of a flag group as carried by its bit (flags.N?Bool loses its Bool word)"
+  "the encoder treating every bool of a flag group as carried by its bit (flags.N?Bool loses its Bool word)",
+  "the flag bit numbers of two optional fields swapped in the hand-written InitConnectionParams"
  ],
  "C03": [
   "the padding amount computed in ige.Encrypt",
@@ -29,7 +31,8 @@ PREV = {
   "msg_id parity tested with % 4 instead of & 3 (negative ids refused)",
   "isPacketEncrypted looking at only 4 bytes of the key id",
   "the declared-length bound of DeserializeEncrypted rewritten with >= (body that fills the packet refused)",
-  "a sticky-error check added after the body read in DeserializeEncrypted (empty body refused)"
+  "a sticky-error check added after the body read in DeserializeEncrypted (empty body refused)",
+  "a package-level scratch array for the SHA-1 inputs of generateAESIGE (send and receive overlap)"
  ],
  "C04": [
   "the integer type used in the declared-length check of DeserializeEncrypted",
@@ -37,7 +40,8 @@ PREV = {
   "the block-length validation moved out of the cipher methods into wrappers that Decrypt does not use",
   "binary.LittleEndian.Uint64 applied to a possibly nil PopRawBytes result in DeserializeUnencrypted",
   "the body taken as the rest of the packet instead of the declared length",
-  "the key-id comparison moved into the msg_key failure branch"
+  "the key-id comparison moved into the msg_key failure branch",
+  "the msg_id parity test reduced to \"not divisible by 4\" in all three readers"
  ],
  "C05": [
   "the bound of the padding-strip loop in DecryptMessageWithTempKeys",
@@ -45,7 +49,8 @@ PREV = {
   "the &15 dropped from the padding of the message-level Encrypt wrapper",
   "SHA1(new_nonce+new_nonce) computed over the minimal-length Bytes() in generateTempKeys",
   "a deferred wipe zeroing the chaining blocks of the IGE cipher after each call",
-  "the message-level Encrypt appending its padding to the caller's slice in place"
+  "the message-level Encrypt appending its padding to the caller's slice in place",
+  "ige.Decrypt cutting its input down to whole blocks before the length check"
  ],
  "C06": [
   "the byte width used for the salt derived from server_nonce",
@@ -53,7 +58,8 @@ PREV = {
   "an over-strict length/ordering check on the transmitted bytes of g_a",
   "an int64 conversion of pq inside SplitPQ",
   "new_nonce_hash1 compared as hex strings of minimal-length Bytes()",
-  "the outer % 16 dropped from the padding of EncryptMessageWithTempKeys"
+  "the outer % 16 dropped from the padding of EncryptMessageWithTempKeys",
+  "PutMessage writing a 254-byte string in the short form (off-by-one at the tiny/large switch)"
  ],
  "C07": [
   "a wrong variable in one of the nonce comparisons of makeAuthKey",
@@ -61,7 +67,8 @@ PREV = {
   "SetAuthKey persisting the session before the last reply is checked",
   "DecryptMessageWithTempKeys returning the untrimmed message when no SHA-1 prefix matches",
   "a deferred reset of service mode that also runs on the error exits",
-  "a deferred recover in makeAuthKey that shadows err and returns nil"
+  "a deferred recover in makeAuthKey that shadows err and returns nil",
+  "the wrong-kind exit of makeAuthKey returning errors.Wrapf(nil, ...)"
  ],
  "C08": [
   "a shift amount in the abridged length header writer",
@@ -69,7 +76,8 @@ PREV = {
   "a maximum-length check in the abridged reader comparing words with bytes",
   "the intermediate writer coalescing header and body in a too-small fixed buffer",
   "large bodies read with a single conn.Read bypassing the full-read helper",
-  "the intermediate reader handing out a window of a reused receive buffer"
+  "the intermediate reader handing out a window of a reused receive buffer",
+  "tcpConn.Read turning (0, nil) into io.EOF"
  ],
  "C09": [
   "registering the response waiter after the request was written",
@@ -77,7 +85,8 @@ PREV = {
   "the table Add method writing the map under the read lock",
   "the container decoder reusing one message object for all items",
   "the gzip loop dropping the bytes returned together with io.EOF",
-  "a \"msg_id not newer than the last one\" filter at the top of processResponse"
+  "a \"msg_id not newer than the last one\" filter at the top of processResponse",
+  "GenerateMessageId with 1 ms resolution (two in-flight requests share a table key)"
  ],
  "C10": [
   "an early return that skips the acknowledgement in processResponse",
@@ -85,7 +94,8 @@ PREV = {
   "reading the clock twice in GenerateMessageId",
   "container items processed in goroutines that capture the loop variable",
   "acknowledgements written outside the send lock",
-  "the same stale-msg_id filter in readMsg, dropping messages before they are acknowledged"
+  "the same stale-msg_id filter in readMsg, dropping messages before they are acknowledged",
+  "a monotonic guard in GenerateMessageId that bumps a repeated id by one instead of four"
  ],
  "C11": [
   "skipping the waiter notification when the new salt was already adopted",
@@ -93,7 +103,8 @@ PREV = {
   "closing the channel in the table Delete method",
   "the waiter repeating the request in place and returning whatever comes back unexamined",
   "the file store skipping the write when the session equals the one cached at Load",
-  "adopting and saving the new salt only when a waiter is registered under bad_msg_id"
+  "adopting and saving the new salt only when a waiter is registered under bad_msg_id",
+  "SaveSession handing the store write to a goroutine"
  ],
  "C12": [
   "opening the session file without truncation in Store",
@@ -101,7 +112,8 @@ PREV = {
   "restoring the stored hostname only when no ServerHost is configured",
   "Load returning the cached session when the file fails to parse",
   "the session directory probed with os.Lstat (symlinked directory refused)",
-  "Load reading the session file through io.LimitReader"
+  "Load reading the session file through io.LimitReader",
+  "Store writing a temp file in os.TempDir() and renaming it across file systems"
  ],
  "C13": [
   "two parameters swapped in one generated method signature",
@@ -109,7 +121,8 @@ PREV = {
   "the marker method of one constructor renamed so that it implements the wrong boxed type",
   "one method asserting a single constructor instead of its boxed result type",
   "two same-typed fields of NewSessionCreated swapped",
-  "a hand-written wrapper method sending the bare query for one argument value"
+  "a hand-written wrapper method sending the bare query for one argument value",
+  "Poll.FlagIndex() returning 0 instead of 1"
  ],
  "C14": [
   "the vector-ness of a parameter dropped from the generator's argument grouping test",
@@ -117,7 +130,8 @@ PREV = {
   "generated files opened for writing without truncation",
   "the parser refusing flag bit 31 through an off-by-one range check",
   "the registry list deciding the Obj suffix with a different predicate than the declaration",
-  "a sort over a copy whose comparator indexes the original slice"
+  "a sort over a copy whose comparator indexes the original slice",
+  "tlgen refusing a symlinked schema after os.Lstat"
  ],
  "C15": [
   "an integer overflow in the vector size bound of the decoder",
@@ -125,7 +139,8 @@ PREV = {
   "the per-message error check of the container loop moved after the loop",
   "the no-hints guard testing nil instead of length zero",
   "a failed hinted vector returned as a non-nil wrapper with nil data (nil reflect.Type dereference)",
-  "an unsynchronised package-level cache map written from parseTag"
+  "an unsynchronised package-level cache map written from parseTag",
+  "the enum arm of decodeObject letting a non-member id fall through to the struct code"
  ],
  "C16": [
   "waiting on the goroutine wait-group from inside the reading goroutine on disconnect",
@@ -133,7 +148,8 @@ PREV = {
   "registering the waiter only after a successful write",
   "new_session_created waking every older waiter (send on a channel nobody reads)",
   "Reconnect clearing the encrypted flag so that a new key exchange runs",
-  "UnwrapNativeTypes applied in the default arm of processResponse (nil reflect.Type on bare null)"
+  "UnwrapNativeTypes applied in the default arm of processResponse (nil reflect.Type on bare null)",
+  "the container decoder preallocating with the server-chosen count as capacity"
  ],
  "C17": [
   "an extra row in the error-prefix table",
@@ -141,7 +157,8 @@ PREV = {
   "a handled PHONE_MIGRATE falling through to return the original error",
   "a catalogue fast path in RpcErrorToNative that bypasses the prefix table",
   "the default data-centre table hoisted into a shared package variable",
-  "registering the response waiter after the write in sendPacket"
+  "registering the response waiter after the write in sendPacket",
+  "makeRequest silently re-issuing the request on rpc_error code -503"
  ],
  "C18": [
   "the 256-byte padding dropped on one SRP intermediate value",
@@ -149,7 +166,8 @@ PREV = {
   "the password trimmed of white space in the exported wrapper",
   "B < p checked with bytes.Compare on the transmitted bytes",
   "a cached big.Int multiplier mutated in place by k.Mul(k, v)",
-  "validateCurrentAlgo applied to the already padded/truncated B"
+  "validateCurrentAlgo applied to the already padded/truncated B",
+  "PH2 memoised under PH1, which collides across (password, salt1) splits"
  ],
  "C19": [
   "a math/rand fallback when crypto/rand fails",
@@ -157,7 +175,8 @@ PREV = {
   "the nonce helper switched to go-dry RandomBytes (math/rand)",
   "server-supplied secure_random overwriting the crypto/rand bytes of the SRP ephemeral",
   "an out-of-range DH exponent clamped to a public constant",
-  "tl.NewInt256() (zero) used instead of tl.RandomInt256() for new_nonce"
+  "tl.NewInt256() (zero) used instead of tl.RandomInt256() for new_nonce",
+  "a buffered crypto/rand reader whose short read leaves half of new_nonce zero"
  ],
  "C20": [
   "lower-casing the whole URL path before template matching",
@@ -165,7 +184,8 @@ PREV = {
   "strings.TrimLeft of the slashes before splitting the path into segments",
   "decoding the URL query into the result object after the path was mapped",
   "the error path of Resolve calling String() on the nil URL",
-  "fixURLHost cutting the host at the last slash"
+  "fixURLHost cutting the host at the last slash",
+  "strings.SplitN in matchPath letting the last template variable swallow extra segments"
  ]
 }
 TASK = 'You are helping test a verification framework by writing ONE realistic defect into a Go library. Work ONLY inside the git worktree /tmp/seed/{ID}-{R} (a checkout of the pure-Go MTProto/Telegram client library xelaj/mtproto). Do NOT read or write anything under /verif, /repo or /root/.vp, and do not look at other directories under /tmp/seed. Do NOT use `git stash` (the stash is shared with other worktrees): to run something without your change use `git diff > /tmp/seed/{ID}-{R}.patch; git apply -R /tmp/seed/{ID}-{R}.patch; ...; git apply /tmp/seed/{ID}-{R}.patch`.\n\nThe property the library is supposed to satisfy is in /tmp/seed/{ID}-{R}.prop.txt - read it first, then read the source files it names (and whatever they call).\n\nEnvironment (every shell call): `export GOFLAGS=-mod=mod GOPROXY=off GOSUMDB=off GOTOOLCHAIN=local` (no network, nothing can be downloaded). The repository has three Go modules: `.`, `internal/cmd/tlgen`, `telegram/deeplinks`. The existing test suite is: `for m in . internal/cmd/tlgen telegram/deeplinks; do (cd /tmp/seed/{ID}-{R}/$m && go test -vet=off -count=1 ./...) || echo FAILED; done` (building package telegram takes about a minute).\n\nTask: make ONE small, realistic change to the non-test source (the kind of slip, "simplification", "optimisation", "hardening", refactoring or well-meant "fix" a hurried maintainer could plausibly make and a reviewer could plausibly miss) such that the property NO LONGER HOLDS for some input / path / schedule / history, while (a) everything still compiles in all three modules and (b) the existing test suite still passes, unedited. Prefer a defect that needs something specific to manifest (a particular value shape, boundary, rare path, interleaving or error condition) over one that breaks every use. Keep the change minimal (1-12 lines). Previous testers already tried these: {PREV}. Choose a DIFFERENT place and mechanism from all of them. Go through the clauses of the property statement and its quantifier one by one, list which clause each earlier attempt attacked, and pick a clause (or a helper function, a caller, an initialisation, a cleanup path) nobody has touched; the less obvious the better, as long as the property is genuinely broken.\n\nDeliver, all inside /tmp/seed/{ID}-{R}:\n1. the change itself, left uncommitted in the worktree (source files only);\n2. a demonstration: NEW test file(s) named zz_seed_demo_test.go in the package(s) concerned (same-package tests may use unexported identifiers), test names starting with TestSeed, that FAIL with your change and PASS on the original code - verify both yourself; it must be deterministic (or repeat enough to be reliable) and finish within a minute; use fake connections/servers/in-memory pipes where needed, never the network;\n3. /tmp/seed/{ID}-{R}/SEED.md describing: what you changed and where, why it breaks the property, what it needs in order to manifest, and the exact commands you ran with their results.\n\nFinish by reporting: the output of `git -C /tmp/seed/{ID}-{R} diff` (source change only), the demo file path(s), and the observed results of the runs (suite with change, demo with change, demo without change). If your first idea turns out to be caught by the existing tests, try another. If, while reading, you notice something in the UNCHANGED code that already violates the property, mention it briefly at the end of your report (do not use it as your seed).\n'
